@@ -45,6 +45,12 @@ func (i ErrImport) Is(err error) bool {
 	return ok
 }
 
+// Unwrap keeps the cause reachable: an import refused because a log reuses a reference is
+// still a reference conflict for errors.Is / errors.As.
+func (i ErrImport) Unwrap() error {
+	return i.err
+}
+
 var _ error = (*ErrImport)(nil)
 
 func NewErrImport(err error) ErrImport {
